@@ -45,14 +45,14 @@ def _load_contract_modules() -> None:
         importlib.import_module("contracts." + os.path.basename(f)[:-3])
 
 
-def _worker(args: tuple[str, str]) -> dict:
-    name, tier = args
+def _worker(args: tuple[str, str, tuple[int, int]]) -> dict:
+    name, tier, chunk = args
     from pyvc.contracts import REGISTRY
     from pyvc.verify import CheckerError, verify
 
     c = REGISTRY[name]
     try:
-        r = verify(c, tier)
+        r = verify(c, tier, chunk=chunk)
         d = r.__dict__.copy()
     except CheckerError as ex:
         d = {"contract": name, "target": c.target, "props": c.props, "status": "checker-error", "error": str(ex), "failures": [], "undecided": [], "n_obligations": 0, "n_discharged": 0, "interpreted": {}, "assumptions": [], "vcs": [], "by_backend": {}, "solver_time_s": 0.0, "wall_s": 0.0, "paths": 0, "outcomes": 0, "stats": {}, "canary": c.canary, "variants": 1, "reach_witness": None}
@@ -104,8 +104,13 @@ def run_check(prop: str, tier: str, only: str | None = None, jobs: int = 16, ver
     if names:
         # heavier contracts first
         ctx = mp.get_context("fork")
-        with ctx.Pool(min(jobs, max(1, len(names)))) as pool:
-            for d in pool.imap_unordered(_worker, [(n, tier) for n in names], chunksize=1):
+        jobs_list = []
+        for n in names:
+            k = max(1, REGISTRY[n].ground_chunks) if REGISTRY[n].ground is not None else 1
+            jobs_list.extend((n, tier, (i, k)) for i in range(k))
+        jobs_list.sort(key=lambda j: 0 if REGISTRY[j[0]].ground is not None else 1)
+        with ctx.Pool(min(jobs, max(1, len(jobs_list)))) as pool:
+            for d in pool.imap_unordered(_worker, jobs_list, chunksize=1):
                 results.append(d)
                 if verbose:
                     print(f"  {d['status']:13s} {d['contract']}  obl={d['n_obligations']} dis={d['n_discharged']} {d['wall_s']:.1f}s {d['error'][:200] if d.get('error') else ''}", flush=True)
